@@ -158,6 +158,25 @@ def run(tier, fx=None, ck=None, control=False):
     # ------------------------------------------------------------ enums
     enum_rules(fx, ck, comp, pre)
 
+    # ------------------------------------------------------------ E7 (shared with C15 R1b)
+    ck.rule("E7.static-value-agrees", "what the enum lowering computes at compile time agrees with the operator it stands for: no integer shift / bitwise "
+                                      "operation on a value cast from f64 in the lowering or its helpers", floor=1)
+    from numfmt import cast_then_bitwise
+    enum_cone = set()
+    for p, f in comp.items():
+        if param_ty(fx, f, "EnumDeclaration") and aggs(f, "Op", "CreateObject"):
+            enum_cone.add(p)
+            enum_cone |= {t[1]["d"] for bi, t in f.calls() if t[1].get("local") and t[1].get("d") in comp and "Expression" in
+                          " ".join(fx.tys(comp[t[1]["d"]].locals[i]) for i in range(1, comp[t[1]["d"]].argc + 1))}
+    hits = cast_then_bitwise(fx, lambda g: (g.parent if g.closure else g.path) in enum_cone)
+    for p in sorted(enum_cone):
+        bad = [st for g, st in hits if (g.parent if g.closure else g.path) == p]
+        ck.instance("E7.static-value-agrees", p, F.short_span(comp[p].span), ok=not bad)
+        for st in bad[:1]:
+            ck.finding("E7.static-value-agrees", "E7.static-value-agrees/%s/%s" % (p, st[2][1].replace("WithOverflow", "")), F.short_span(st[3]),
+                       "`%s` folds `%s` on an integer cast from the f64 literal: JavaScript shifts in 32 bits, so after `High = 1 << 31` (-2147483648 at run "
+                       "time) the next member is numbered from 2147483649" % (p, st[2][1]))
+
     # ------------------------------------------------------------ N1
     ck.rule("N1.exportable-kinds", "the namespace export step and the module export step handle the same kinds of declaration", floor=1)
     ns_sets = {}
@@ -195,7 +214,7 @@ def run(tier, fx=None, ck=None, control=False):
     run(tier, ctl, ck2, control=True)
     got = {f[0] for f in ck2.findings}
     need = {"PP1.modifier-set", "PP2.stores-after-binding", "PP3.stores-before-fields", "E1.forward-every-member", "E2.reverse-gate",
-            "E3.binding-first", "E5.merge", "E6.auto-increment", "N1.exportable-kinds"}
+            "E3.binding-first", "E5.merge", "E6.auto-increment", "E7.static-value-agrees", "N1.exportable-kinds"}
     if not need <= got:
         ck.closed_fail.append("control failed: the fixture lowering must be reported by %s, got %s" % (sorted(need), sorted(got)))
     ck.note("positive control (fixture c04) reported by: %s" % sorted(got))
